@@ -145,7 +145,7 @@ Params(t) ==
     [] t = "clvl" -> << <<"n", FALSE, Val(NoneV)>>, <<"ovs", FALSE, Val(NoneV)>>, <<"path", FALSE, Val(NoneV)>>,
                         <<"default", FALSE, Val(NoneV)>> >>
     [] t = "olvl" -> << <<"n", FALSE, Val(NoneV)>>, <<"plan", FALSE, Val(NoneV)>> >>
-    [] t \in {"ctxget", "ctxtree", "probe", "probetree"} -> <<>>
+    [] t \in {"ctxget", "ctxtree", "probe", "probetree", "ctxget_sh", "ctxmid", "ctxmid_sh"} -> <<>>
 
 \* definition-time options (the @task(...) decorator) that the probes look at
 DefOpts(t) ==
@@ -182,7 +182,8 @@ Body(t, a, jopts) ==
     [] t = "safe" -> Catch(Call("boom", <<Val(a[1])>>), <<"ValueError">>, "recover")
     [] t = "chooser" -> Cond(Op("lt", <<Call("inc", <<Val(a[1])>>), Val(IntV(3))>>),
                              Call("inc", <<Val(a[1])>>), Call("twice", <<Val(a[1])>>))
-    [] t = "ctxget" -> GetCtx(<<"a", "b">>, IntV(0))
+    [] t \in {"ctxget", "ctxget_sh"} -> GetCtx(<<"a", "b">>, IntV(0))     \* _sh: check_valid="shallow"
+    [] t \in {"ctxmid", "ctxmid_sh"} -> ListE(<<Call("ctxget", <<>>)>>)
     [] t = "ctxdef" -> ListE(<<Val(a[1]), Val(a[2])>>)
     [] t = "ctxtree" -> ListE(<<GetCtx(<<"a", "b">>, IntV(0)), Call("ctxget", <<>>),
                                 [Call("ctxget", <<>>) EXCEPT !.ctx = DictV(<< <<StrV("a"), DictV(<< <<StrV("b"), IntV(9)>> >>)>> >>)]>>)
